@@ -38,6 +38,7 @@ type Contract struct {
 	Vars        [][2]string // lemma variables: name, type
 	Pure        bool
 	MayPanic    bool
+	DeadCode    map[string]bool
 	AllocBound  ast.Expr
 	Props       []string
 	GhostUpd    []*AnchorClause
@@ -287,6 +288,13 @@ func parseContractFile(path, pkg string) (*ContractFile, error) {
 			cur.HasModifies = true
 		case "maypanic":
 			cur.MayPanic = true
+		case "deadcode":
+			if cur.DeadCode == nil {
+				cur.DeadCode = map[string]bool{}
+			}
+			for _, r := range strings.Split(rest, ",") {
+				cur.DeadCode[strings.TrimSpace(r)] = true
+			}
 		case "alloc-bound":
 			e, err := parseExprSrc(rest)
 			if err != nil {
